@@ -1,3 +1,4 @@
+import Snel.Gen.C19
 /-!
 Model of WAL archiving and cleanup:
 `src/engine/core/wal/{wal_cleaner,wal_archiver,wal_archive,wal_archive_recovery,wal_entry}.rs`
@@ -171,15 +172,28 @@ def stripPrefix (p s : List Char) : Option (List Char) :=
 def stripSuffix (suf s : List Char) : Option (List Char) :=
   if suf.isSuffixOf s then some (s.take (s.length - suf.length)) else none
 
-def walPrefix : List Char := "wal-".toList
-def logSuffix : List Char := ".log".toList
+/-! The literal pieces of the names come from the Rust sources (`Snel.Gen.C19`, regenerated by
+`tools/consts/C19.py` on every check). -/
+
+/-- prefix / suffix of `format!("wal-{:05}.log", log_id)` in `archive_log` -/
+def walPrefix : List Char := Snel.Gen.C19.logPrefix.toList
+def logSuffix : List Char := Snel.Gen.C19.logSuffix.toList
+/-- `strip_prefix(..)` / `strip_suffix(..)` of the two directory loops -/
+def filterPrefix : List Char := Snel.Gen.C19.cleanerFilterPrefix.toList
+def filterSuffix : List Char := Snel.Gen.C19.cleanerFilterSuffix.toList
+
+/-- The model has one name filter: the cleaner's deletion loop and the archiver's loop must use
+the same literals, and both paddings must be the five digits `pad5` implements. -/
+example : Snel.Gen.C19.archiverFilterPrefix = Snel.Gen.C19.cleanerFilterPrefix
+    ∧ Snel.Gen.C19.archiverFilterSuffix = Snel.Gen.C19.cleanerFilterSuffix
+    ∧ Snel.Gen.C19.logPadWidth = 5 ∧ Snel.Gen.C19.archivePadWidth = 5 := by decide
 
 /-- The id the cleaner and the archiver read out of a directory entry's name. -/
 def logId? (name : Name) : Option Nat :=
-  match stripPrefix walPrefix name with
+  match stripPrefix filterPrefix name with
   | none => none
   | some s =>
-    match stripSuffix logSuffix s with
+    match stripSuffix filterSuffix s with
     | none => none
     | some num => parseU64 num
 
@@ -231,11 +245,14 @@ def mkArchive {L : Type} (p : Parser L) (shard id : Nat) (ls : List L) : Archive
                 endTs := maxTs es, count := es.length },
     entries := es }
 
-def zstSuffix : List Char := ".wal.zst".toList
+def archPrefix : List Char := Snel.Gen.C19.archivePrefix.toList
+def zstSuffix : List Char := Snel.Gen.C19.archiveSuffix.toList
+def sep1 : Char := Snel.Gen.C19.archiveSep1
+def sep2 : Char := Snel.Gen.C19.archiveSep2
 
 /-- `generate_filename` -/
 def archName (id start stop : Nat) : Name :=
-  walPrefix ++ pad5 id ++ '-' :: dec start ++ '-' :: dec stop ++ zstSuffix
+  archPrefix ++ pad5 id ++ sep1 :: dec start ++ sep2 :: dec stop ++ zstSuffix
 
 def Archive.fileName (a : Archive) : Name := archName a.header.logId a.header.startTs a.header.endTs
 
@@ -248,6 +265,7 @@ structure WalFile (L : Type) where
   readable : Bool
   /-- false: `remove_file` fails (the entry is a directory) -/
   deletable : Bool
+  deriving DecidableEq, Repr
 
 /-- An entry of the shard's archive directory. -/
 inductive Node
@@ -347,7 +365,7 @@ def isort {α : Type} (le : α → α → Bool) : List α → List α
   | [] => []
   | x :: xs => insertBy le x (isort le xs)
 
-def dotZst : List Char := ".zst".toList
+def dotZst : List Char := '.' :: Snel.Gen.C19.archiveExt.toList
 
 /-- `path.extension() == Some("zst")` -/
 def hasZstExt (n : Name) : Bool := dotZst.isSuffixOf n && n.length > dotZst.length
@@ -390,5 +408,9 @@ def addFiles {L : Type} (wal add : List (WalFile L)) : List (WalFile L) :=
 def runStep {L : Type} (conservative : Bool) (p : Parser L) (fails : Nat → Bool) (shard : Nat)
     (st : List (WalFile L) × ArchFs) (s : Step L) : List (WalFile L) × ArchFs :=
   cleanup conservative p fails shard s.bound (addFiles st.1 s.add) st.2
+
+def runSteps {L : Type} (conservative : Bool) (p : Parser L) (fails : Nat → Bool) (shard : Nat)
+    (st : List (WalFile L) × ArchFs) (steps : List (Step L)) : List (WalFile L) × ArchFs :=
+  steps.foldl (runStep conservative p fails shard) st
 
 end Snel.WalArchive
